@@ -28,6 +28,37 @@ CLAIMS['C15'] = {
     'design': 'DESIGN.md section 5 C15',
 }
 
+CLAIMS['C02'] = {
+    'text': 'Rule contract RC on every rule brought under contract: RC-REWIND (local failure with rewinding required leaves pointer, byte, line and column exactly as at entry), RC-MONO (the cursor never moves backwards, on success, failure and exception), RC-LOOK (look-ahead rules never move it). Leaves (one-argument match: all unit rules, string, istring, bytes, eof, eol x5, eolf, bof, bol, everything, integer rules) are proved on their real bodies over symbolic windows; combinators (seq, sor, star, plus, opt, at, not_at, until x2, rep, rep_opt, rep_min_max, if_then_else, strict, star_strict, must, if_must, raise, try_catch_return_false, try_catch_raise_nested) and the match() dispatcher (bool actions veto with the cursor restored) against oracle sub-rules that may fail after consuming when rewinding is optional.',
+    'note': 'Not yet under contract (listed, not silently skipped): rematch, raw_string, http chunk rules, rep_one_min_max, if_apply, state/action/control switches, buffer_input. See DESIGN.md appendix A.',
+    'design': 'DESIGN.md section 5 C02',
+}
+CLAIMS['C03'] = {
+    'text': 'Every leaf proof runs with CBMC pointer checks on an input window that is an exact-size heap object (so a read at or beyond end() is an out-of-object read whatever the surrounding buffer), for all window sizes 0..4096, all cursor offsets and all contents; bump/bump_in_this_line/bump_to_next_line are replaced by contracts whose precondition "count <= bytes left" is an obligation at every call site.',
+    'note': 'memory_input only (buffer_input, limit_bytes, raw_string, unescape readers not yet under contract); combinators never dereference the input (they only call rules).',
+    'design': 'DESIGN.md section 5 C03',
+}
+CLAIMS['C04'] = {
+    'text': 'The real match<Rule,A,M,Action,Control>() dispatcher (with match_control_unwind, unwind_guard, normal<Rule>::apply/apply0 and action_input) is proved for every apply mode x rewind mode x {no action, void apply, bool apply, void apply0, bool apply0} x {control with unwind, without unwind, normal}: the action runs exactly once iff the rule matched and actions are enabled, after the rule and before the closing hook, with an action input spanning exactly [entry iterator, cursor after the match); a void action changes neither result nor cursor; a false bool action turns the match into a local failure with the cursor restored; at/not_at call their sub-rule with actions disabled (stub precondition).',
+    'note': 'disable/enable/internal::action/apply/apply0/if_apply rules not yet under contract; the whole-run ordering statement is the induction over the derivation (paper step).',
+    'design': 'DESIGN.md section 5 C04',
+}
+CLAIMS['C05'] = {
+    'text': 'must, if_must (both defaults), raise with the real normal<Rule>::raise: a parse_error is raised exactly when the must-rule fails locally, by the raise() of exactly that rule, with the position of the cursor where the attempt stopped (>= where it began); every combinator under contract passes a sub-rule exception on unchanged (same object identity and type); try_catch_return_false converts exactly the named exception types (static subtype table) into a local failure, restoring the cursor when rewinding is required, and try_catch_raise_nested raises a new parse_error for its rule at the start position of the attempt with the original as nested exception.',
+    'note': 'what() text and the parse_error/position constructors are std::string code (trusted throw stub); must_if<> custom messages not under contract.',
+    'design': 'DESIGN.md section 5 C05',
+}
+CLAIMS['C08'] = {
+    'text': 'On the real match() dispatcher with opaque control hooks sharing a ghost protocol automaton: start exactly once, then the rule, then (if enabled) the action, then exactly one of success / failure / unwind; success iff the rule matched and the action accepted, failure iff local failure, unwind iff an exception leaves the attempt (whether raised by the rule or by its action); hooks out of order fail the stub precondition; destructors of the exceptional edge run with the exception in flight.',
+    'note': 'state_control, remove_first_state, control_action forwarders, coverage counters and shuffle_states are not under contract; std::optional in unwind_guard is a trusted model.',
+    'design': 'DESIGN.md section 5 C08',
+}
+CLAIMS['C09'] = {
+    'text': 'Hand-written convenience rules are proved against K-contracts = the PEG evaluation of their documented expansion: until<C>, until<C,R>, rep<N>, rep_opt<N>, rep_min_max<Min,Max>, if_then_else, strict, star_strict, if_must/opt_must, must (ghost automata over oracle sub-rules, loops closed by loop contracts), and the leaves string, bytes, eolf, eof, bof, bol, everything, success, failure against closed-form byte-level specifications.',
+    'note': 'Alias-defined rules (list*, pad*, rep_min, rep_max, minus, star_must, two/three/forty_two, keyword, identifier, shebang, separated_seq, rep_string, if_then) are definitional compositions of rules under contract: not re-proved; rematch and rep_one_min_max not yet under contract; K-contracts are hand transcriptions of doc/Rule-Reference.md.',
+    'design': 'DESIGN.md section 5 C09',
+}
+
 NOT_APPLICABLE = {
     'C14': 'language equality between a recursive grammar and RFC 8259 is not a per-function contract; json.hpp contains no function bodies (DESIGN.md section 5, C14)',
 }
